@@ -70,6 +70,11 @@ TEMPLATES = [
     "def f(x: Union[{A}, {B}, None], y: object) -> None:\n    if isinstance(x, ({A}, {B}, bytes, float)):\n        reveal_type(x)\n    if isinstance(y, ({A}, {B}, bool)) and y in ({LA}, {LB}, {LC}):\n        reveal_type(y)\n    if type(y) in {{int, str, bytes}}:\n        reveal_type(y)\n",
     "class Q1:\n    qa: int = 1\nclass Q2(Q1):\n    qb: str = ''\nclass Q3(Q2, Generic[T]):\n    def m(self, t: T) -> None:\n        print(self.qa, self.qb, self.qc, self.qd)\n        self.qe = t\ndef f(q: Q3[{A}], r: float, i: int) -> None:\n    q.m({LB})\n    reveal_type(q.qe)\n    r = i\n    i = r\n    cpx: complex = i\n    use(i)\n    use(r)\ndef use(p: P3) -> None: ...\n",
     "def takes(**kwargs: str) -> None: ...\ndef takes2(a: int = 0, **kwargs: {B}) -> None: ...\ndef f(key: Literal['alpha', 'beta', 'gamma', 'delta'], k2: Literal['a', 'bb', {LB}]) -> None:\n    takes(**{{key: 1}})\n    takes2(**{{key: {LA}, k2: None}})\n    takes2(**{{k2: 1.5}}, **{{key: b''}})\n",
+    # sets of tuples that are only partially ordered among themselves (None vs int in the same position)
+    "def f(x: object, y: object) -> None:\n    if x in {{('alpha', 1), ('alpha', None), ('beta', {LA}), ('beta', 'z'), ('gamma',)}}:\n        reveal_type(x)\n    for e in {{('k', None), ('k', 0), ('j', b'')}}:\n        reveal_type(e)\n",
+    # a third pair for the history search: a union whose first member matches a generic protocol only structurally, then the plain member alone
+    "import tarfile, zipfile\ndef f(src: Union[tarfile.TarFile, List[{A}]], z: Union[zipfile.ZipFile, Dict[str, {B}]]) -> None:\n    for i, m in enumerate(src):\n        pass\n    print(sorted(src, key=str), list(src), len(z.namelist()))\n",
+    "import tarfile, zipfile\ndef f(src: tarfile.TarFile) -> None:\n    for i, m in enumerate(src):\n        reveal_type(m)\n        print(m.size)\n    reveal_type(list(src))\n    reveal_type(sorted(src, key=str))\n",
     # a pair for the history search: the first discards the results of standard-library calls in expression statements, the second checks the same results against typeshed-only bases
     "import io, subprocess\ndef f(path: str) -> None:\n    open(path, 'w')\n    open(path, 'rb')\n    io.StringIO()\n    iter([{LA}])\n    path.encode()\n    subprocess.Popen(path)\n    sorted([{LA}, {LB}])\n",
     "import io, subprocess\ndef tt(f: TextIO) -> None: ...\ndef tb(f: BinaryIO) -> None: ...\ndef ti(f: IO[str]) -> None: ...\ndef it(f: Iterator[{A}]) -> None: ...\ndef cm(f: ContextManager[Any]) -> None: ...\ndef f(path: str) -> None:\n    tt(open(path, 'w'))\n    tb(open(path, 'rb'))\n    ti(io.StringIO())\n    it(iter([{LA}]))\n    cm(subprocess.Popen(path))\n    cm(open(path))\n    tt(open(path, 'rb'))\n",
@@ -113,7 +118,7 @@ def corpus(tier):
 def bounds(tier):
     _install()
     return {"corpus": len(corpus(tier)), "schedule_deviations": "1 site" if tier == "quick" else "1 site (all programs), 1 occurrence (cap 8; first and swapped variants), 2 sites (first variant)", "history_depth": 2 if tier == "quick" else 3,
-            "history_alphabet": 16 if tier == "quick" else 20, "seeds": 8 if tier == "quick" else 32,
+            "history_alphabet": 18 if tier == "quick" else 22, "seeds": 8 if tier == "quick" else 32,
             "harvested_programs": len(__import__("props.c10_harvest", fromlist=["x"]).hcorpus()), "harvested_schedules": "1 site (rev)" if tier == "quick" else "1 site (rev, rot1, swap01)",
             "harvested_seeds": 6 if tier == "quick" else 24, "harvested_histories": "corpus in order, in reverse order" + ("" if tier == "quick" else ", and in order starting at every 12th program (wrapping around)")}
 
@@ -122,7 +127,7 @@ def units(tier):
     n = len(corpus(tier))
     # quick: schedules for the first and the swapped variant of every template (the second variant only changes the type vocabulary); thorough: all three
     u = [("sched", tier, i) for i in range(n) if tier == "thorough" or i >= NV * len(TEMPLATES) or i % NV == 0]
-    k = 16 if tier == "quick" else 20
+    k = 18 if tier == "quick" else 22
     u += [("hist", tier, i) for i in range(k)]
     u += [("seeds", tier, 0), ("typing", tier, 0)]
     # second corpus: the programs of pyanalyze's own test-suite (props/c10_harvest.py)
@@ -267,7 +272,7 @@ def _in_child(fn):
 
 
 # history alphabet as (template, variant): colliding pairs first (same template in two variants; the swapped variant spells the same unions in the other order)
-HIST_ALPHA = [pidx(-7, 0), pidx(-6, 0), pidx(-5, 0), pidx(-4, 0), pidx(-1, 0), pidx(-1, "s"), pidx(8, 0), pidx(8, 1), pidx(0, 0), pidx(0, "s"), pidx(16, 0), pidx(16, 1), pidx(5, 0), pidx(5, "s"), pidx(-3, 0), pidx(-3, "s"),
+HIST_ALPHA = [pidx(-9, 0), pidx(-8, 0), pidx(-7, 0), pidx(-6, 0), pidx(-5, 0), pidx(-4, 0), pidx(-1, 0), pidx(-1, "s"), pidx(8, 0), pidx(8, 1), pidx(0, 0), pidx(0, "s"), pidx(16, 0), pidx(16, 1), pidx(5, 0), pidx(5, "s"), pidx(-3, 0), pidx(-3, "s"),
               pidx(4, 0), pidx(4, 1), pidx(12, 0), pidx(12, 1)]
 
 
@@ -275,7 +280,7 @@ def _hist(res, tier, first, only=None):
     _install()
     import pa.run      # import pyanalyze in the parent; no check is run here
     progs = corpus(tier)
-    k = 16 if tier == "quick" else 20
+    k = 18 if tier == "quick" else 22
     alpha = [a for a in HIST_ALPHA[:k] if a < len(progs)]
     depth = 2 if tier == "quick" else 3
 
